@@ -18,6 +18,10 @@ import (
 
 var curEngine atomic.Pointer[Engine]
 
+// mainDrvFault, when set (Main-level world, no Engine), decides driver faults from the operation and the first
+// query argument (the log ID), never from arrival order.
+var mainDrvFault func(op, arg string) error
+
 // drvHook, when set (crash child), is called before and after every driver operation.
 var drvHook func(op string, after bool)
 
@@ -33,7 +37,10 @@ func (d *simDriver) Open(name string) (driver.Conn, error) {
 	return &simConn{c: c.(*sqlite3.SQLiteConn)}, nil
 }
 
-type simConn struct{ c *sqlite3.SQLiteConn }
+type simConn struct {
+	c    *sqlite3.SQLiteConn
+	inTx bool
+}
 
 func drvSeam(op string) string {
 	if drvHook != nil {
@@ -72,7 +79,8 @@ func (c *simConn) BeginTx(ctx context.Context, o driver.TxOptions) (driver.Tx, e
 	if err != nil {
 		return nil, err
 	}
-	return &simTx{tx: tx}, nil
+	c.inTx = true
+	return &simTx{tx: tx, c: c}, nil
 }
 
 func (c *simConn) QueryContext(ctx context.Context, q string, args []driver.NamedValue) (driver.Rows, error) {
@@ -84,16 +92,34 @@ func (c *simConn) QueryContext(ctx context.Context, q string, args []driver.Name
 	if err != nil {
 		return nil, err
 	}
-	return &simRows{r: r}, nil
+	arg := ""
+	if len(args) > 0 {
+		switch v := args[0].Value.(type) {
+		case string:
+			arg = v
+		case []byte:
+			arg = string(v)
+		}
+	}
+	return &simRows{r: r, arg: arg, inTx: c.inTx}, nil
 }
 
 // simRows passes every row fetch through the seam: a read can fail while stepping the statement
 // (SQLITE_BUSY, an I/O error) even though issuing the query succeeded.
-type simRows struct{ r driver.Rows }
+type simRows struct {
+	r    driver.Rows
+	arg  string
+	inTx bool // the query runs inside a transaction (the witness's read-verify-write), not a plain read
+}
 
 func (s *simRows) Columns() []string { return s.r.Columns() }
 func (s *simRows) Close() error      { return s.r.Close() }
 func (s *simRows) Next(dest []driver.Value) error {
+	if f := mainDrvFault; f != nil && s.inTx {
+		if err := f("Next", s.arg); err != nil {
+			return err
+		}
+	}
 	if k := drvSeam("Next"); k != "" {
 		return injected(k)
 	}
@@ -113,9 +139,15 @@ func (c *simConn) ExecContext(ctx context.Context, q string, args []driver.Named
 
 func (c *simConn) Ping(ctx context.Context) error { return c.c.Ping(ctx) }
 
-type simTx struct{ tx driver.Tx }
+type simTx struct {
+	tx driver.Tx
+	c  *simConn
+}
 
 func (t *simTx) Commit() error {
+	if t.c != nil {
+		defer func() { t.c.inTx = false }()
+	}
 	if k := drvSeam("Commit"); k != "" {
 		_ = t.tx.Rollback() // go-sqlite3 rolls back itself after a failed COMMIT
 		return injected(k)
@@ -126,6 +158,9 @@ func (t *simTx) Commit() error {
 }
 
 func (t *simTx) Rollback() error {
+	if t.c != nil {
+		defer func() { t.c.inTx = false }()
+	}
 	k := drvSeam("Rollback")
 	err := t.tx.Rollback()
 	drvAfter("Rollback")
